@@ -17,7 +17,7 @@ P = {
          "NewMnemonicByEntropy is compared byte-for-byte with an independent encoder over golden lists on a table that executes every (language, size, word position, 11-bit index) tuple and every first-SHA-256-byte value at every checksum width, on the extreme-byte-length sentences of every list, and on structured random entropies (leading zero bytes, bit runs, text-like bytes, source literals); each case also re-checks the returned sentence after a later call and a refilled, reused buffer; the table is repeated after validations and under 8 concurrent callers. Pairwise-complete, not exhaustive over 2^128..2^256 entropies.",
          "", "6/C01"),
  "C02": ("exploration",
-         "round-trip property (generate -> validate) over the pairwise table, leading-zero-byte sweeps, extreme-length sentences, scripted and default randomness sources, reference-assembled valid sentences, and a concurrent variant; one rapid case in four runs directly after a generated history of earlier calls (rejected typos, failing sources, other languages)",
+         "round-trip property (generate -> validate) over the pairwise table, leading-zero-byte sweeps, extreme-length sentences, scripted and default randomness sources, reference-assembled valid sentences, and a concurrent variant; one rapid case in four runs directly after a generated history of earlier calls (rejected typos, failing sources, other languages); adjacent windows of one buffer encoded by 8 goroutines at once; word sweeps in hundreds of freshly started processes (per-process randomness such as hash seeds)",
          "Every generated mnemonic (by entropy, by NewMnemonic under a scripted source and under the default source) and every sentence assembled from golden words with a reference-solved checksum must be accepted by CheckMnemonic and IsMnemonicValid; leading zero bytes k=0..size are enumerated for every size and language, the longest/shortest-word sentences for every language and count, and 8 goroutines repeat the round trip concurrently in mixed languages.",
          "", "6/C02"),
  "C03": ("exploration",
@@ -37,7 +37,7 @@ P = {
          "Every failure point k in 0..4n/3-1 for each of the five counts, five failure kinds (EOF, ErrUnexpectedEOF, plain error, EAGAIN, timeout), error alone or with bytes, three fragmentations and ten languages is injected (36 000 scripts), plus every fragmentation class of a successful delivery (incl. the error arriving with the completing bytes: success required) and tens of thousands of random scripts; the bytes delivered up to the first failure decide the expected outcome exactly; the source keeps delivering after a failure so retry/fallback/latching behaviour is visible; 8 goroutines mix failing and succeeding calls on one stateless source.",
          "", "6/C06"),
  "C07": ("exploration",
-         "fresh-process probing of source identity through the verif hook, byte-exact tee oracle, fixed-data / repetition / bias screens over genuinely unswapped default outputs, and fault injection into the default source itself (18 error kinds x failure points: no sentence may be made of bytes the source did not deliver)",
+         "fresh-process probing of source identity through the verif hook, byte-exact tee oracle, fixed-data / repetition / bias screens over genuinely unswapped default outputs, fault injection into the default source itself (20 error kinds x failure points: no sentence may be made of bytes the source did not deliver), a slow default source, the exported crypto/rand.Reader variable replaced after start-up, replayed bytes (same bytes => same sentence) and a shared-bytes screen over consecutive outputs",
          "In freshly started processes, after generated histories of non-swapping calls (incl. rejected sizes), the value the swap hook returns must be crypto/rand.Reader itself; NewMnemonic called through a recording tee around that source must return exactly the reference encoding of the bytes drawn; thousands of unswapped default outputs of mixed sizes drawn back to back must show no run of fixed bytes, no repeat and no biased bit.",
          "Randomness quality cannot be established by sampling; the claim rests on identity plus byte-exactness.", "6/C07"),
  "C08": ("exploration",
@@ -45,7 +45,7 @@ P = {
          "The word the API emits for each of the 10 x 2048 indices, and the list declared in internal/wordlist/*.go, are compared with golden lists (digest-pinned) and checked for the stated structural facts; for each word, sentences containing it are scanned over candidate last words and the accepted set must equal the reference solution set for that index; sentences made only of words two lists share are validated alternately under both languages. Exhaustive over the finite domain; the canonical lists themselves are trusted data.",
          "The golden Portuguese list has no external digest corroboration (checked structurally only).", "6/C08"),
  "C09": ("exploration",
-         "exhaustive range enumeration of lengths and counts + rapid Int generation (also as a native fuzz target in the thorough tier), with a counting randomness source installed through the verif hook; content-bearing sizes (text-like bytes of every length 0..130, extreme-length entropies of every language)",
+         "exhaustive range enumeration of lengths and counts + rapid Int generation (also as a native fuzz target in the thorough tier), with a counting randomness source installed through the verif hook; content-bearing sizes (text-like bytes of every length 0..130, extreme-length entropies of every language); calls after a source that panicked inside Read and under a slow but working source, with a watchdog",
          "Every entropy length 0..4096 (thorough 0..65536, plus MiB sizes) and every word count in [-4096,4096] (thorough +-10^6), int extremes and values congruent to valid counts modulo 2^32 are tried; success iff one of the five sizes, otherwise the sentinel error, the empty string and zero reads of the source; counts congruent to a valid one modulo 2^k (k = 8..63) are included and the range job also runs in a 32-bit (GOARCH=386) build where int is 32 bits wide.",
          "With an unsupported language only the shape of the result is asserted.", "6/C09"),
  "C10": ("exploration",
@@ -61,23 +61,23 @@ P = {
          "Each plan (optional sequential prelude with failing calls, then 2..16 goroutines released together in a process that has not used the package, arranged so that several make the first use of the same language, followed by warm phases; GOMAXPROCS, yields and per-call repetition vary) plus fixed cold-start plans per language and hammer plans (8 goroutines x thousands of cheap calls with different, partly non-NFKD, arguments). Any race-detector report, panic, unstable repetition, invalid default-source output, or result differing from the reference model or from the same call run alone is a violation.",
          "Schedules are sampled, not enumerated; the race detector flags unsynchronised access pairs that are executed, largely independent of the interleaving taken.", "6/C12"),
  "C13": ("exploration",
-         "model-based / metamorphic testing of call histories, each executed in a fresh process and again permuted in a second fresh process, plus an in-process machine with process-lifetime consistency",
+         "model-based / metamorphic testing of call histories, each executed in a fresh process and again permuted in a second fresh process, plus an in-process machine with process-lifetime consistency; idle-time histories (no call for 65 s / 200 s) in the thorough tier",
          "All 100 ordered pairs of first-used languages x 4 first-call patterns, generated histories of up to 40+ calls (unsupported languages, failing calls, re-used arguments, scripted sources, spare-capacity entropy slices, wiped seeds) run from a cold start, and thousands of long warm in-process histories; each observation must equal the history-free reference, the observation of the same call in a differently ordered process, and repeated calls must agree; caller buffers, returned strings, seeds and error values are re-checked at the end.",
          "", "6/C13"),
  "C14": ("exploration",
-         "robustness testing: grid over Language values, sizes, block-edge code points and extreme-length entropies, rapid-generated hostile arguments with a hang watchdog, randomness sources that fail for good (18 error kinds), fresh child processes whose 4..12 goroutines call all entry points at once with capitalised / near-miss / foreign words (fatal errors and deadlocks that recover() cannot stop), coverage-guided native fuzzing in the thorough tier",
+         "robustness testing: grid over Language values, sizes, block-edge code points and extreme-length entropies, rapid-generated hostile arguments with a hang watchdog, randomness sources that fail for good (18 error kinds), fresh child processes (one in three under a hostile locale / environment) whose 4..12 goroutines call all entry points at once with capitalised / near-miss / foreign words (fatal errors and deadlocks that recover() cannot stop), coverage-guided native fuzzing in the thorough tier",
          "Every entry point is called with every Language in [-300,300] and at integer boundaries, entropy lengths 0..1024 (thorough 0..4096), word counts at boundaries, sentences of 1..61 real words, invalid UTF-8, NULs, code points at the edges of the scripts' Unicode blocks, extreme-length entropies and 0.5-4 MiB inputs; rapid draws and (thorough) two native fuzz targets extend this. The grid also runs in a 32-bit (GOARCH=386) build. A recovered panic or a call exceeding 120 s is a violation.",
          "\"Never hangs\" is decided up to the 120 s bound.", "6/C14"),
  "C15": ("exploration",
-         "generated single-defect sentences re-classified by the reference model, errors.Is / message-content oracle, primer and after-call probes, concurrent variant; native fuzzing in the thorough tier",
+         "generated single-defect sentences re-classified by the reference model, errors.Is / message-content oracle, primer and after-call probes, a complete sweep of all 10 x 2048 list words inside valid and checksum-only-defect sentences, generic defect programs (numbered sheets, missing separators, detached marks, giant tokens), concurrent variant; native fuzzing in the thorough tier",
          "Sentences with exactly one defect class (count only incl. counts wrapping modulo 2^8/2^16, checksum only, unknown token with acceptable count) over all languages and sizes, a quarter of them written with compatibility spaces, some judged right after the same text was judged under another language (incl. shared-word sentences); the returned error must match ErrWordLen / ErrChecksumIncorrect / be a non-sentinel error naming an unknown token and must not change when later calls fail; valid sentences must give nil; 10 goroutines repeat this concurrently.",
-         "Combined defects are not asserted (the property does not order them).", "6/C15"),
+         "For combined defects only \"not nil\" is asserted (the property does not order them).", "6/C15"),
  "C16": ("exploration",
-         "exhaustive range enumeration + rapid Int64 generation against a name table keyed by the declared constants, retention / revisit probes, concurrent variant",
+         "exhaustive range enumeration + rapid Int64 generation against a name table keyed by the declared constants, retention / revisit probes, concurrent variant, cold concurrent first use in fresh processes",
          "Every Language value in [-100000,100000] (thorough: [-2^24,2^24]) plus all integer-width boundaries and random int64 draws is printed and compared with the declared identifier / \"Language(N)\"; the returned string is re-read after other values were printed, values printed thousands of distinct values ago are revisited, and 8 goroutines print different values at once; the range job also runs in a 32-bit (GOARCH=386) build; panics are caught.",
          "", "6/C16"),
  "C17": ("exploration",
-         "round-trip testing of the real tool binary (built with the verif hook) on rapid-generated upstream files served over loopback HTTP, with re-runs over existing output, a cut download and TMPDIR on another filesystem; output parsed with go/parser and type-checked with go/types",
+         "round-trip testing of the real tool binary (built with the verif hook) on rapid-generated upstream files served over loopback HTTP, with re-runs over existing output, a cut download, gzip-encoded and Content-Length / chunked responses, conditional requests, files sized around 64 KiB and 1 MiB, first words that begin like binary signatures, and TMPDIR on another filesystem; output parsed with go/parser and type-checked with go/types",
          "The generator is run on ten different generated word files per case (blank lines, missing final newline, Latin+diacritics, Han, kana, Hangul, arbitrary letters/marks incl. supplementary planes, up to 3000 lines), on the canonical lists, and on an alphabet file with every Unicode letter and mark; every output must parse and type-check, declare the variable lang.go consumes, and contain exactly the non-empty input lines; the canonical run must equal the committed sources and the lists the API emits (thorough: the module is rebuilt with the generated files).",
          "Formatting is not compared; CRLF input and characters html/template escapes are outside the stated domain; a run in which the injected download fault makes the tool abort is not judged.", "6/C17"),
 }
@@ -108,7 +108,7 @@ m = {
  "setup_cmd": "./setup.sh",
  "hooks": {
   "guard": "verif",
-  "enable": "go build tag: -tags verif (the harness module replaces github.com/islishude/bip39 by /repo and builds it with -tags verif)",
+  "enable": "go build tag: -tags verif (the harness module replaces github.com/islishude/bip39 by /repo and builds it with -tags verif; the *-untagged jobs build without the tag and add the same hook file, its constraint inverted, through a go build -overlay, writing nothing to /repo)",
   "baseline_off_cmd": "cd /repo && go test -vet=off -count=1 -json ./...",
   "source_commits": ["b6dfdc9", "b8c1e4b"],
   "add_only": True,
